@@ -539,6 +539,10 @@ def cmp_semantics(v):
         if names == {'self', 'other'}:
             return frozenset([(k,)])
         raise me.Undecided(f'comparison of {names}')
+    if k == 'isconst':
+        # `abs(node) == 1`: the structure is constant - TRUE *or* FALSE
+        return frozenset([('constant', me.table(
+            v[1], ('self', 'other')))])
     if k == 'band':
         return cmp_semantics(v[1]) | cmp_semantics(v[2])
     if k == 'bnot' and v[1][0] == 'valid':
